@@ -212,4 +212,107 @@ static inline uint32_t syn_do_once(uint32_t x, uint32_t n) {
     } while (c < n && c < 20);
     return x + c;
 }
+
+/* ---------------------------------------------------------------------------------------------------------------
+ * stage 3: structs passed by pointer (constructs the carquet functions of FUNCS do not use)
+ * --------------------------------------------------------------------------------------------------------------- */
+#include <assert.h>
+
+typedef struct syn_inner {
+    const uint8_t* cur;       /* read cursor: a pointer field that MOVES (`*s->cur++`, `s->cur += k`) */
+    uint16_t left;            /* narrow unsigned counter (`left--`, `left -= k` computed in int) */
+    int8_t bias;              /* narrow signed field */
+} syn_inner_t;
+
+typedef struct syn_outer {
+    syn_inner_t in;           /* nested struct, passed on as `&o->in` */
+    uint8_t* dst;             /* second pointer field, into ANOTHER array, written through */
+    size_t dst_pos;
+    uint32_t hist[2][3];      /* 2-D array field */
+    bool sticky;
+    int32_t total;
+    char label[8];            /* opaque: never translated (see STRUCT_OPAQUE) */
+} syn_outer_t;
+
+/* `*s->cur++`, `s->left--` as statements and inside expressions, compound assignment on narrow fields */
+static inline int syn_take(syn_inner_t* s) {
+    if (s->left == 0) return -1;
+    int b = *s->cur++;
+    s->left--;
+    s->bias += (int8_t)(b & 3);
+    return b + s->bias;
+}
+
+/* read-only struct (`const T*`): array-free, all fields read, pointer field dereferenced without moving */
+static inline uint32_t syn_peek2(const syn_inner_t* s) {
+    if (s->left < 2) return 0xFFFFFFFFu;
+    return (uint32_t)s->cur[0] | ((uint32_t)s->cur[1] << 8) | ((uint32_t)(uint8_t)s->bias << 16);
+}
+
+/* nested struct handed to a callee (`&o->in`) inside a loop, callee effect threaded back every iteration; 2-D array
+ * field with run-time indices; a store through the second pointer field (`o->dst[o->dst_pos++]`); a bool field as latch;
+ * `break` out of the loop */
+static inline int syn_pump(syn_outer_t* o, int n) {
+    int moved = 0;
+    for (int i = 0; i < n && i < 5; i++) {
+        int v = syn_take(&o->in);
+        if (v < 0) {
+            o->sticky = true;
+            break;
+        }
+        o->hist[i & 1][(unsigned)v % 3u] += 1;
+        o->dst[o->dst_pos++] = (uint8_t)v;
+        o->total += v;
+        moved++;
+    }
+    return moved;
+}
+
+/* a const struct argument passed on to a callee that takes it const, result used in an expression; second struct
+ * parameter; pointer field `+=` with a run-time amount; assert on a relation between fields */
+static inline uint32_t syn_skip2(syn_inner_t* s, const syn_inner_t* other) {
+    assert(s->left >= other->left);
+    uint32_t w = syn_peek2(s) ^ syn_peek2(other);
+    if (s->left >= 2) {
+        s->cur += 2;
+        s->left -= 2;
+    }
+    return w;
+}
+
+/* run-time-length memcpy between two arrays, both at an offset (through two pointer fields of one struct) */
+static inline size_t syn_copy(syn_outer_t* o, size_t n) {
+    if (n > o->in.left) n = o->in.left;
+    memcpy(o->dst + o->dst_pos, o->in.cur, n);
+    o->dst_pos += n;
+    o->in.cur += n;
+    o->in.left = (uint16_t)(o->in.left - n);
+    return n;
+}
+
+/* run-time-length memcpy into an integer local (little-endian partial load, the other bytes keep their value) and into
+ * a local byte array that is then read */
+static inline uint64_t syn_partial(const uint8_t* p, size_t n, uint32_t seed) {
+    uint64_t v = 0x1122334455667788ull;
+    uint32_t w = seed;
+    uint8_t tmp[6] = { 9, 8, 7 };
+    if (n > 8) n = 8;
+    memcpy(&v, p, n);
+    memcpy(&w, p, n > 4 ? 4 : n);
+    memcpy(tmp + 1, p, n > 5 ? 5 : n);
+    return v ^ ((uint64_t)w << 32) ^ tmp[0] ^ ((uint64_t)tmp[3] << 8) ^ ((uint64_t)tmp[5] << 16);
+}
+
+/* an initialiser that aims a pointer field at an array parameter (`fieldbase`), and a function that takes the struct
+ * twice through a callee chain with a returned value in a larger expression (hoisted call) */
+static inline void syn_inner_init(syn_inner_t* s, const uint8_t* data, uint16_t n) {
+    s->cur = data;
+    s->left = n;
+    s->bias = -3;
+}
+static inline int syn_sum2(syn_inner_t* s, int* second) {
+    int a = syn_take(s) * 2;
+    *second = (int16_t)syn_take(s);
+    return a + *second;
+}
 #endif
